@@ -69,6 +69,20 @@ add("C18", "harness", "exploration", "property-based testing with a resource ora
     "Long generated documents x capacities x modes (next / reused record set) x both formats: every dominated call after warm-up must perform 0 heap allocations (views into the buffer), the set buffer capacity and the reader capacity stay unchanged.",
     "allocations are observed through #[global_allocator] only; domination rule skips calls that may legitimately enlarge an offset vector")
 
+SN = "trusted base: the shuttle re-implementations of mpsc / crossbeam scope / scoped_threadpool in /repo/src/verif_hooks.rs (feature verif_hooks) and shuttle's schedulers; schedules are sampled except in the tiny DFS scope"
+add("C07", "sched", "exploration", "schedule-controlled property-based testing: proptest generates configurations and scheduler seeds, shuttle (random / PCT / round-robin / bounded DFS) owns the interleaving of the real parallel.rs; history invariant (exactly-once, own output)",
+    "Every execution runs the real read_parallel_init / parallel_fasta / parallel_fastq code under a deterministic scheduler with an instrumented mock reader (tagged sets, content-dependent outputs) or the real readers over documents with batches of different sizes; the recorded history must show exactly-once delivery with the matching output, in-set file order, and file order with one worker. Tiny configurations are enumerated by DFS up to a schedule cap.",
+    SN)
+add("C08", "sched", "fault_enumeration", "schedule-controlled testing with enumerated consumer/fault dimensions: for each generated base configuration every 'stop after k', every reader-error index and every init-closure failure is run under sampled shuttle schedules; deadlock = shuttle's deterministic detection",
+    "Termination is decided by shuttle (all tasks blocked => deadlock with a replayable schedule; step bound => livelock), never by a wall clock. Consumer behaviours (drain, stop after k for every k incl. never asking), reader error at every set index and each init closure failing at each call are enumerated per base configuration; additionally no callback may run after the call returned and the result must be the expected Ok/Err.",
+    SN)
+add("C15", "sched", "fault_enumeration", "schedule-controlled testing with enumerated fault positions (reader error at every set index, each init closure at each call) under sampled shuttle schedules; parse errors compared with sequential reading",
+    "Error received exactly once, nothing from behind it, earlier sets at most once (all + end marker when draining); reader_init / dataset_init / record_data_init / rset_data_init failures come back as Err without panic or deadlock; a parse error through parallel_fasta/parallel_fastq equals the sequential one (Debug-equal).",
+    SN)
+add("C16", "sched", "exploration", "schedule-controlled property-based testing: resource invariant over the recorded history (number and identity of data sets, reader lead bounded by the queue length) with long inputs and slow/fast consumers under shuttle schedules",
+    "dataset_init calls <= queue_len + 1 (exactly that when running to the end), every data set seen by fill/worker/consumer was created by it, at every fill: fills <= queue_len + received + 1; real readers: record-set buffer capacities bounded independent of the number of batches.",
+    SN + "; memory is judged through the number/identity/capacity of data sets, not RSS")
+
 NOT_YET = "check under construction (framework being built); will be claimed once its command exists"
 
 def main():
